@@ -2,12 +2,13 @@
    trivia insensitivity for the default dialect over the C01 class of values
    (C12_trivia_*: any whitespace and line comments at every list, vector and
    top-level boundary, including a final comment without a newline);
-   termination, the Emacs Lisp dialect and trivia inside byte vectors are
-   checked by the correspondence and the implementation-level oracle (see
+   the same for the Emacs Lisp dialect with bracket vectors
+   (C12_trivia_elisp_sequence_partial, C12_trivia_elisp_value_partial); termination and trivia inside byte vectors are checked
+   by the correspondence and the implementation-level oracle (see
    theorems.json). *)
 From Coq Require Import SpecFloat.
 Require Import Base Value Float PrintOptions ParseOptions Reader Scan Num Parser DatumProofs DepthProofs.
-Require Import ReaderProofs TokenProofs RoundtripProofs TriviaProofs.
+Require Import ReaderProofs TokenProofs RoundtripProofs TriviaProofs ElispRoundtrip ElispTrivia.
 
 (* value_iter().next() and Iterator for Parser are next_value().transpose(),
    datum_iter().next() is next_datum().transpose(): in the model these are
@@ -74,6 +75,51 @@ Theorem C12_trivia_insensitive_partial : forall ryu alpha fast std_parse k l1 l2
   from_trait default_ro alpha fast std_parse k (bytes_events (pre2 ++ ltxt ryu l2 ++ post2)).
 Proof. exact same_value_same_result. Qed.
 Print Assumptions C12_trivia_insensitive_partial.
+
+(* The Emacs Lisp dialect (print::Options::elisp / parse::Options::elisp):
+   the same layouts with "[" "]" around vectors; leaves are read up to the
+   documented folding (ElispRoundtrip.efold). *)
+Theorem C12_trivia_elisp_sequence_partial : forall ryu alpha fast std_parse ls first post fuel n r D,
+  eseq_ok ryu first D ls -> trivia_eof post -> D <= 128 ->
+  (length (seq_eltxt ryu ls post) + 16 + 2 <= fuel)%nat -> (length ls < n)%nat -> at_bytes r (seq_eltxt ryu ls post) ->
+  iterate_values elisp_ro alpha fast std_parse fuel n (mkp r D) = map (fun pl => POk (elval (snd pl))) ls.
+Proof. exact elisp_iterate_layouts. Qed.
+Print Assumptions C12_trivia_elisp_sequence_partial.
+
+Theorem C12_trivia_elisp_value_partial : forall ryu alpha fast std_parse k l pre post,
+  trivia pre -> trivia_eof post -> elok ryu l -> (ldepth l <= 127)%nat ->
+  from_trait elisp_ro alpha fast std_parse k (bytes_events (pre ++ eltxt ryu l ++ post)) = POk (elval l).
+Proof. exact elisp_layout_from_trait. Qed.
+Print Assumptions C12_trivia_elisp_value_partial.
+
+(* "[1 ;c\n 2\t(t . nil)\r]" reads as #(1 2 (t)) under the Emacs Lisp options *)
+Definition c12_elayout : lay :=
+  LSeq true (BItem [] (LAtom (Number (PosInt 1)))
+            (BItem (s2b " ;c" ++ [10; 32]) (LAtom (Number (PosInt 2)))
+            (BItem [9] (LSeq false (BItem [] (LAtom (Bool true)) (BDot [32] [32] (LAtom Nil) [])))
+            (BEnd [13])))).
+Example C12_trivia_elisp_nonvacuous :
+  elok (fun _ => []) c12_elayout /\ (ldepth c12_elayout <= 127)%nat /\
+  eltxt (fun _ => []) c12_elayout = s2b "[1 ;c" ++ [10] ++ s2b " 2" ++ [9] ++ s2b "(t . nil)" ++ [13] ++ s2b "]" /\
+  elval c12_elayout = Vector [Number (PosInt 1); Number (PosInt 2); Cons (Symbol (s2b "t")) Null] /\
+  forall k, from_trait elisp_ro (fun _ => true) true dec_to_f64 k (bytes_events (eltxt (fun _ => []) c12_elayout)) =
+            POk (elval c12_elayout).
+Proof.
+  split.
+  { cbn [c12_elayout elok ebok]. repeat match goal with
+      | |- _ /\ _ => split
+      | |- trivia _ => apply is_trivia_ok; reflexivity
+      | |- ert_ok (Number _) => cbn; unfold u64_MAX; lia
+      | |- ert_ok _ => exact I
+      | |- true = true \/ _ => left; reflexivity
+      | |- false = true \/ _ => right; reflexivity
+      | |- _ = _ => reflexivity
+      | |- _ <> _ => discriminate
+      | |- delim_ok _ => reflexivity
+      end. }
+  split; [vm_compute; repeat constructor|]. split; [vm_compute; reflexivity|]. split; [reflexivity|].
+  intros k; destruct k; vm_compute; reflexivity.
+Qed.
 
 (* the printer's own text is the layout with no extra trivia *)
 Example C12_layout_of_printed : forall ryu v, ltxt ryu (LAtom v) = TextProofs.txt ryu v /\ lval (LAtom v) = v.
